@@ -63,8 +63,8 @@ func checkLinked(c linkedCase) error {
 		}
 	}
 	for _, rev := range []bool{false, true} {
-		s1 := descsnap.Of(d, descsnap.Opts{Reverse: rev})
-		s2 := descsnap.Of(d2, descsnap.Opts{Reverse: !rev})
+		s1 := descsnap.Of(d, descsnap.Opts{Reverse: rev, SizeHint: descsnap.Hint(p)})
+		s2 := descsnap.Of(d2, descsnap.Opts{Reverse: !rev, SizeHint: descsnap.Hint(p)})
 		rest, explained := descsnap.Without(s1, s2, descsnap.EnumFeatureDisagreements(p))
 		if explained > 0 && !pbt.ExcludeKnown(kfEnumFeatures) {
 			rest = descsnap.DiffKeys(s1, s2)
@@ -202,8 +202,9 @@ func checkSchema(loose bool) func(c schemaCase) error {
 			if err != nil {
 				return fmt.Errorf("NewFile(ToFileDescriptorProto(d)) failed (file %d): %v", i, err)
 			}
-			s1 := descsnap.Of(d, descsnap.Opts{})
-			s2 := descsnap.Of(d2, descsnap.Opts{Reverse: true})
+			hint := descsnap.Hint(orig)
+			s1 := descsnap.Of(d, descsnap.Opts{SizeHint: hint})
+			s2 := descsnap.Of(d2, descsnap.Opts{Reverse: true, SizeHint: hint})
 			if diff := descsnap.Diff(s1, s2); diff != "" {
 				return fmt.Errorf("NewFile(ToFileDescriptorProto(d)) does not reproduce d (file %d, %s): %s", i, p.GetName(), diff)
 			}
@@ -366,7 +367,7 @@ func TestRandomCanonical(t *testing.T) {
 		Check:      checkSchema(false),
 		NonTrivial: rich,
 		Classes:    classes,
-		Quick:      2500, Thorough: 40000,
+		Quick:      1200, Thorough: 14000,
 	})
 }
 
@@ -378,7 +379,7 @@ func TestRandomLoose(t *testing.T) {
 		Check:      checkSchema(true),
 		NonTrivial: rich,
 		Classes:    classes,
-		Quick:      1000, Thorough: 15000,
+		Quick:      500, Thorough: 6000,
 	})
 }
 
@@ -390,6 +391,36 @@ func TestRandomBig(t *testing.T) {
 		Check:      checkSchema(false),
 		NonTrivial: rich,
 		Classes:    classes,
-		Quick:      400, Thorough: 6000,
+		Quick:      120, Thorough: 1500,
 	})
+}
+
+// ---------------------------------------------------------------------------------------------
+// witnesses of registered findings
+
+// KF-filedesc-enum-features (root cause in internal/filedesc, property C37): the linked descriptor
+// of an editions enum that overrides features.enum_type reports the file's IsClosed(); rebuilding
+// the same file from its own descriptor proto with protodesc gives the other answer, so the
+// "reproduces d in every accessor" half of C34 fails on that accessor.
+func TestWitnessEnumFeatures(t *testing.T) {
+	d := linked["internal/testprotos/editionsfuzztest/test2editions.proto"]
+	if d == nil {
+		t.Skip("test2editions.proto not linked")
+	}
+	p := protodesc.ToFileDescriptorProto(d)
+	d2, err := protodesc.NewFile(p, protoregistry.GlobalFiles)
+	if err != nil {
+		t.Fatalf("NewFile: %v", err)
+	}
+	name := protoreflect.FullName("goproto.proto.test.TestAllTypesProto2Editions.NestedEnum")
+	find := func(fd protoreflect.FileDescriptor) protoreflect.EnumDescriptor {
+		return fd.Messages().ByName("TestAllTypesProto2Editions").Enums().ByName("NestedEnum")
+	}
+	e1, e2 := find(d), find(d2)
+	if e1 == nil || e2 == nil {
+		t.Fatalf("%s not found", name)
+	}
+	declared := e1.Options().(*descriptorpb.EnumOptions).GetFeatures().GetEnumType() == descriptorpb.FeatureSet_CLOSED
+	repro := declared && !e1.IsClosed() && e2.IsClosed()
+	pbt.Witness(t, kfEnumFeatures, repro, fmt.Sprintf("%s declares features.enum_type=CLOSED; linked descriptor IsClosed()=%v, NewFile(ToFileDescriptorProto(d)) IsClosed()=%v", name, e1.IsClosed(), e2.IsClosed()))
 }
